@@ -10,6 +10,7 @@
 //! plemma: C13 lemma_pong_roundtrip: likewise for pong
 //! plemma: C13 lemma_witnesses_roundtrip: a list of at most 65535 witnesses of at most 65535 bytes each (tx_signatures) is read back as written, consuming exactly what was written
 //! trusted: Witness is held as its consensus encoding; bitcoin's consensus decoder of a Witness is uninterpreted with two assumed facts of the bitcoin crate: it consumes exactly size() bytes, and it decodes an encoding back to the witness
+//! plemma: C13 lemma_accountable_roundtrip: the accountable flag of update_add_htlc is read back as written
 //! plemma: C13 lemma_error_roundtrip: an error / warning message whose text fits the u16 length is read back with its channel id and text
 use vstd::prelude::*;
 verus! {
@@ -498,5 +499,53 @@ pub proof fn lemma_items_roundtrip(ws: Seq<Witness>, k: nat, rest: Seq<u8>)
         assert(ws.take(k as int) =~= pre_ws.push(x));
     }
 }
+
+// ---- the `accountable` flag of update_add_htlc (bLIP 4): one byte, 7 for true, 0 for false; anything but 7 reads as false ----
+impl ByteReader {
+    #[verifier::external_body] pub fn read_exact_1(&mut self, buf: &mut [u8; 1]) -> (r: Result<(), DecodeError>)
+        requires old(self).wf()
+        ensures final(self).data@ == old(self).data@, final(self).wf(),
+            old(self).pos@ + 1 <= old(self).data@.len() ==> r is Ok && final(self).pos@ == old(self).pos@ + 1 && final(buf)@[0] == old(self).data@[old(self).pos@],
+            old(self).pos@ + 1 > old(self).data@.len() ==> r is Err,
+    { unimplemented!() }
+}
+pub struct AccountableBool<T>(pub T);
+impl Writeable for AccountableBool<&bool> {
+    open spec fn ser(&self) -> Seq<u8> { seq![if *self.0 { 7u8 } else { 0u8 }] }
+//@extract lightning/src/ln/msgs.rs :: impl Writeable for AccountableBool :: fn write
+//@rw R5
+    fn write<W: Writer>(&self, writer: &mut W) -> Result<(), io::Error>
+//@with
+    fn write(&self, writer: &mut LogWriter) -> Result<(), Error>
+//@rw R8
+    writer.write_all(&[wire_value])
+//@with
+    { let __b = [wire_value]; writer.write_all(&__b) }
+//@mutant accountable_written_as_one
+    let wire_value = if *self.0 { 7u8 } else { 0u8 };
+//@with
+    let wire_value = if *self.0 { 1u8 } else { 0u8 };
+//@end
+}
+impl Readable for AccountableBool<bool> {
+    open spec fn dec(d: Seq<u8>, p: int) -> Option<(AccountableBool<bool>, int)> { if 0 <= p && p + 1 <= d.len() { Some((AccountableBool(d[p] == 7u8), p + 1)) } else { None } }
+//@extract lightning/src/ln/msgs.rs :: impl Readable for AccountableBool :: fn read
+//@rw R5
+    fn read<R: Read>(reader: &mut R) -> Result<AccountableBool<bool>, DecodeError>
+//@with
+    fn read(reader: &mut ByteReader) -> Result<AccountableBool<bool>, DecodeError>
+//@rw R8
+    reader.read_exact(&mut buf)?;
+//@with
+    reader.read_exact_1(&mut buf)?;
+//@mutant any_non_zero_byte_reads_as_accountable
+    let bool_value = buf[0] == 7;
+//@with
+    let bool_value = buf[0] != 0;
+//@end
+}
+pub proof fn lemma_accountable_roundtrip(b: bool, rest: Seq<u8>)
+    ensures <AccountableBool<bool> as Readable>::dec(AccountableBool(&b).ser() + rest, 0) == Some((AccountableBool(b), 1int))
+{}
 }
 fn main() {}
